@@ -368,7 +368,9 @@ def r5(ctx: Ctx) -> None:
                         part = any(ctx.prog.exc_is_subclass(hc, c) for hc in hcs)
                         if not (full or part):
                             continue
-                        dels = [d for d in ctx.calls(f, storage="delete_file") if in_handler(d, h) and names_in(path_arg(d)) & mpath]
+                        from .common import same_value
+                        dels = [d for d in ctx.calls(f, storage="delete_file") if in_handler(d, h)
+                                and (names_in(path_arg(d)) & mpath or same_value(ctx, f, path_arg(d), d.id, path_arg(m0), m0.id))]
                         if dels and full:
                             cleaned = True
                         elif dels:
